@@ -13,7 +13,7 @@ NAME = "C13"
 LEVEL = "fault_enumeration"
 
 PLAN = {
-    "quick": {"catalogue": 32, "histories": 900, "chunk": 8, "budget": None, "max_steps": 12},
+    "quick": {"catalogue": 48, "histories": 2000, "chunk": 8, "budget": None, "max_steps": 12},
     "thorough": {"catalogue": 400, "histories": None, "chunk": 16, "budget": 600, "max_steps": 12},
 }
 
